@@ -209,6 +209,7 @@ impl Subject for CompressSubject {
         let _ = std::fs::remove_file(dir.join("out.cba"));
         let _ = std::fs::remove_file(dir.join("out..tmp"));
         let _ = std::fs::remove_file(dir.join("lib.tmp"));
+        let _ = std::fs::remove_file(dir.join("out.at-return"));
     }
     fn future(&self, dir: &Path) -> BoxFut {
         let out = dir.join("out.cba");
@@ -237,7 +238,11 @@ impl Subject for CompressSubject {
                 let input = tokio::fs::File::open(&src).await.map_err(|e| e.to_string())?;
                 let mut output = tokio::fs::File::create(&out).await.map_err(|e| e.to_string())?;
                 bitar::api::compress::create_archive(input, &mut output, &opts).await.map_err(|e| format!("{e}"))?;
-                // a library user owns the output handle; completing the write is their job
+                // The archive "the writer produced" is what the output path holds when create_archive returns
+                // (read here through another handle, in the same poll): a trailing write still in flight on the
+                // blocking pool would make that depend on the schedule.
+                let at_return = std::fs::read(&out).map_err(|e| e.to_string())?;
+                std::fs::write(out.with_extension("at-return"), at_return).map_err(|e| e.to_string())?;
                 use tokio::io::AsyncWriteExt;
                 output.flush().await.map_err(|e| e.to_string())?;
                 Ok(())
@@ -245,7 +250,8 @@ impl Subject for CompressSubject {
         }
     }
     fn observe(&self, dir: &Path, result: &Result<(), String>) -> Observation {
-        let bytes = std::fs::read(dir.join("out.cba")).unwrap_or_default();
+        let at_return = dir.join("out.at-return");
+        let bytes = if self.kind != "cli-compress" && at_return.exists() { std::fs::read(&at_return).unwrap_or_default() } else { std::fs::read(dir.join("out.cba")).unwrap_or_default() };
         let tmp_left = self.kind == "cli-compress" && dir.join("out..tmp").exists();
         let key = format!("{}|len={}|fnv={:016x}", if result.is_ok() { "ok" } else { "err" }, bytes.len(), fnv(&bytes));
         let violation = match result {
